@@ -34,6 +34,7 @@ def cases(tier):
         for plan in ('c+c', 'm+c'):
             out.append({'fn': 'run_race', 'id': f'race/{kind}/drop/{plan}', 'params': {'kind': kind, 'slow': False, 'plan': plan, 'preempt': pre,
                                                                                       'drop': True}})
+        out.append({'fn': 'run_poller_vs_transaction', 'id': f'race/{kind}/poller-vs-transaction', 'params': {'kind': kind, 'preempt': pre}})
         for refuse in (0, 1, 2):
             out.append({'fn': 'run_reconnect_race', 'id': f'race/{kind}/reconnect/refuse{refuse}',
                         'params': {'kind': kind, 'refuse': refuse, 'preempt': pre}})
@@ -54,6 +55,76 @@ def run_race(env, p, body=None):
 
 def run_reconnect_race(env, p):
     run_race(env, p, _run_reconnect_race)
+
+
+def run_poller_vs_transaction(env, p):
+    run_race(env, p, _run_poller_vs_transaction)
+
+
+def _run_poller_vs_transaction(env, p, cosched):
+    """the poller reconnects (with an identification exchange) while a multi command transaction starts: nobody waits for ever"""
+    from frappy.errors import CommunicationFailedError
+    kind = p['kind']
+    ident = [('*IDN?', 'ACME.*')] if kind == 'string' else [('I', 'A')]
+    srv, io, dev, clock = B.make_io(env, kind, identification=ident)
+    base = dev_conn_class()
+    K = f'C16/race/{kind}/poller-vs-transaction'
+
+    class RaceConn(base):
+        scheme = 'fake'
+
+        def send(self, data):
+            cosched.yield_point('send')
+            super().send(data)
+
+        def recv(self):
+            cosched.yield_point('recv')
+            return super().recv()
+
+        def flush_recv(self):
+            cosched.yield_point('flush')
+            return super().flush_recv()
+
+    eol = b'\n' if kind == 'string' else b''
+
+    def on_send(data):
+        body = data[:-1] if eol else data
+        if body in (b'*IDN?', b'I'):
+            return [(b'ACME,1' if kind == 'string' else b'A') + eol]
+        return [b'R' + body[1:] + eol]
+    dev.on_send = on_send
+    io.connectStart()
+    io.closeConnection()
+    clock.now = clock.now + io.pollinterval + 1
+    results = {}
+
+    def poller():
+        try:
+            io.doPoll()
+            results['poller'] = 'ok'
+        except Exception as e:
+            results['poller'] = repr(e)
+
+    def transaction():
+        try:
+            if kind == 'string':
+                results['tx'] = list(io.multicomm([('Ca', True, 0), ('Cb', True, 0)]))
+            else:
+                results['tx'] = list(io.multicomm([(b'Ca', 2, 0), (b'Cb', 2, 0)]))
+        except CommunicationFailedError as e:
+            results['tx'] = repr(e)
+    s = cosched.Sched(env, max_preempt=p['preempt'])
+    s.spawn('poller', poller)
+    s.spawn('tx', transaction)
+    s.run()
+    if s.preempts:
+        env.note('race/preempted')
+    env.check(s.deadlock is None, K + '/deadlock', [s.deadlock, [x for x in s.trace][-8:]])
+    for t in s.threads:
+        env.check(t.exc is None, K + '/thread-raised', [t.name, repr(t.exc)])
+    env.check(len(results) == 2, K + '/caller-without-result', sorted(results))
+    env.note('race/paired')
+    env.note('race/transaction')
 
 
 def _run_reconnect_race(env, p, cosched):
